@@ -18,8 +18,10 @@ open LtVerif B LtVerif.BeResp
 
 /-! ## backend chunked decoder (http_chunk_decode_append_data) -/
 
-/-- segmentation independence: feeding the backend stream in two pieces is the same as feeding
-    it at once (hence the same for every composition into reads / FastCGI records) -/
+/-- segmentation independence of the decoder LAYER: feeding the backend stream in two pieces is
+    the same as feeding it at once.  The automaton is a byte fold, so this is `List.foldl_append`;
+    the content of the clause "every split" is that the C equals this fold, which the
+    correspondence (all splits of short bodies, long size lines in one read and split) validates. -/
 theorem c10_dechunk_segmentation (s : DcSt) (a b : Bytes) :
     dcFeed (dcFeed s a) b = dcFeed s (a ++ b) := (dcFeed_append s a b).symm
 
@@ -207,7 +209,8 @@ example : dcParseLine (ofString "5\n") = none := by rfl
 
 /-! ## FastCGI record reassembly (fastcgi_get_packet / fcgi_recv_parse_loop) -/
 
-/-- segmentation independence of record reassembly -/
+/-- segmentation independence of the record reassembly LAYER (a byte fold, as above: the C's
+    equality to it is what the correspondence validates) -/
 theorem c10_fcgi_segmentation (s : FrSt) (a b : Bytes) :
     frFeed (frFeed s a) b = frFeed s (a ++ b) := (frFeed_append s a b).symm
 
@@ -231,7 +234,9 @@ theorem c10_fcgi_reassembly (rs : List FrRec) (fin : FrRec) (junk : Bytes)
   refine ⟨hended, ?_⟩
   simp [frAfter, h4, hev]
 
-/-- the STDOUT stream handed to the response parser is the concatenation of the STDOUT contents -/
+/-- the concatenation of the STDOUT contents of a record sequence (`frStdout`, a free-standing
+    specification: that `readFcgi`/`fcgiDispatch` hand exactly these bytes to the response parser
+    is validated by the correspondence, not proved) -/
 theorem c10_fcgi_stdout_exact (rs : List FrRec) :
     frStdout (rs.map FrRec.ev) = (rs.filter (·.typ = fcgiStdout)).flatMap (·.content) := by
   induction rs with
@@ -278,8 +283,11 @@ example : (frFeed {} (frEncode 6 1 (ofString "ab") [0, 0, 0] ++ frEncode 7 1 (of
 
 /-- **Segmentation of the response head is irrelevant.**  While the head received so far is
     incomplete and undecided (parsing the accumulated bytes changes nothing and asks for more),
-    receiving `a` and then `b` is the same as receiving `a ++ b` in one read — so, by induction,
-    every composition of the head into reads gives the same result. -/
+    receiving `a` and then `b` is the same as receiving `a ++ b` in one read.  (`hinc` has to be
+    established for the prefix at hand — no lemma here says that every proper prefix of a head
+    satisfies it, and it fails once a 1xx block completes inside `a`; cuts at / after the end of
+    the head and FastCGI are not covered: "every split of a whole response" is carried by the
+    correspondence and the segmentation oracle only.) -/
 theorem c10_head_segmentation (cfg : Cfg) (st : St) (a b : Bytes) (hbe : cfg.be ≠ .fcgi)
     (hc : st.cstate = .handle) (ho : st.open_ = true) (hs : st.started = false) (hf : st.finished = false)
     (hh : st.handler = true) (ha : a ≠ []) (hb : b ≠ [])
@@ -356,33 +364,13 @@ theorem c10_fields_relayed (cfg : Cfg) (st : St) (fs : List (Bytes × Bytes))
   rw [foldl_applyLine_plain cfg fs st hp,
       foldl_hdrInsert_fresh _ fs st.headers (fun f hf => (hp f hf).vne) hnd]
 
-/-- lighttpd answered with its own complete error response of that status (HTTP/1.x): status
-    line, fields, empty line, the error page (nothing for HEAD), keep-alive as negotiated; for a
-    request other than HEAD the fields are exactly Content-Type, the Content-Length of the page,
-    Connection / Date (`errFields`) -/
-def OwnError (cfg : Cfg) (st st' : St) (status : Nat) : Prop :=
-  st'.status = status ∧ st'.cstate = .done ∧ st'.keepAlive = st.keepAlive ∧
-  (∃ fields, st'.evs = pushW st.evs
-      (h1StatusLine cfg status ++ fields ++ crlf ++ crlf ++ (if cfg.head then [] else errorPage status))) ∧
-  (cfg.head = false → st'.evs = pushW st.evs
-      (h1StatusLine cfg status ++ errFields cfg status st.keepAlive ++ crlf ++ crlf ++ errorPage status))
-
-theorem ownError_conStep (cfg : Cfg) (st st1 : St) (status : Nat) (hv : cfg.ver ≤ 1) (hc : st1.cstate = .handle)
-    (ho : st1.open_ = false) (hh : st1.handler = false) (hs : st1.status = status)
-    (h5 : status = 500 ∨ status = 502) (hk : st1.keepAlive = st.keepAlive) (he : st1.evs = st.evs) :
-    OwnError cfg st (conStep cfg st1) status := by
-  have h4 : 400 ≤ st1.status := by rcases h5 with h | h <;> omega
-  have h6 : st1.status < 600 := by rcases h5 with h | h <;> omega
-  have h401 : st1.status ≠ 401 := by rcases h5 with h | h <;> omega
-  obtain ⟨c1, c2, c3, ⟨f, c4⟩⟩ := conStep_errdoc cfg st1 hv hc ho hh h4 h6
-  refine ⟨by rw [c1, hs], c2, by rw [c3, hk], ⟨f, by rw [c4, hs, he]⟩, fun hhead => ?_⟩
-  rw [conStep_errdoc_fields cfg st1 hv hc ho hh h4 h6 h401 hhead, hs, he, hk]
-
 /-- **Failure before the response head is complete ⇒ 5xx.**  Whatever the backend has sent so far,
     as long as its response head is not complete (nothing relayed yet), every way the backend
     stream can end — EOF, reset, socket error, hang-up, for FastCGI also EOF without
     END_REQUEST — makes lighttpd answer with its own complete `500` response (`OwnError`: error
-    document with its exact Content-Length, keep-alive as negotiated): HTTP/1.0 and HTTP/1.1. -/
+    document with its exact Content-Length, keep-alive as negotiated): HTTP/1.0 and HTTP/1.1.
+    (Modulo gw_recv_response_error()'s reconnect while nothing was written to the backend yet —
+    C11's territory; the harness pins `wb.bytes_out`.) -/
 theorem c10_failure_before_head_is_5xx (cfg : Cfg) (st : St) (e : End)
     (hv : cfg.ver ≤ 1) (hc : st.cstate = .handle) (ho : st.open_ = true) (hs : st.started = false)
     (hh : st.handler = true) (hst : st.status = 0) (he : e ≠ .none) (hfe : st.fcgi.ended = false) :
@@ -476,40 +464,23 @@ theorem c10_failure_after_head_aborts (cfg : Cfg) (st : St) (e : End)
 
 /-- **A body cut short by backend EOF / hang-up after the client-side head was written closes the
     connection** (HTTP/1.x): a Content-Length body with fewer bytes than announced, or a chunked
-    backend body whose decoder is not done, is never terminated towards the client — no
-    last-chunk, nothing appended, keep-alive cleared.  (`hpt`: lighttpd sends chunked on its own
-    only when no Content-Length is known, i.e. a truncated body that is sent chunked is a chunked
-    backend body; an invariant of the relay that is validated by the correspondence, not proved.) -/
+    backend body whose decoder is not done, is not completed towards the client — keep-alive is
+    cleared, the response ends, and nothing is appended to what was queued except `ownLastChunk st`:
+    the last-chunk http_chunk_close() writes for a body that lighttpd chunk-encodes ITSELF
+    (`sendChunked` without a backend decoder).  For a truncated body that would need a known
+    positive remaining length on a self-chunked response; lighttpd chunk-encodes itself only when
+    no length is known, so `ownLastChunk st = []` in every state the relay reaches
+    (`ownLastChunk_nil`) — an invariant that is NOT proved here; the model driver checks it on the
+    state every correspondence run ends in (`HPT-VIOLATED`). -/
 theorem c10_truncated_after_head_closes (cfg : Cfg) (st : St) (e : End)
     (hv : cfg.ver ≤ 1) (hbe : cfg.be ≠ .fcgi) (hc : st.cstate = .write) (ho : st.open_ = true)
     (hs : st.started = true) (hh : st.handler = true) (hf : st.finished = false)
-    (hsent : st.hdrSent = true) (ht : bodyTruncated cfg st = true)
-    (hpt : st.sendChunked = true → st.dc.isSome = true) (he : e = .eof ∨ e = .hup) :
+    (hsent : st.hdrSent = true) (ht : bodyTruncated cfg st = true) (he : e = .eof ∨ e = .hup) :
     (onEnd cfg st e).keepAlive = false ∧ (onEnd cfg st e).cstate = .done ∧
-    (onEnd cfg st e).evs = pushW st.evs st.wq := by
-  have hv2 : ¬ (cfg.ver ≥ 2) := by omega
+    (onEnd cfg st e).evs = pushW st.evs (st.wq ++ (if cfg.ver = 1 then ownLastChunk st else [])) := by
   have hne : e ≠ .none := by rcases he with h | h <;> simp [h]
-  rw [onEnd_active cfg st e (Or.inr hc) ho hne (by simp [lostHandler, hc]),
-      gwRecvEnd_eofHup cfg st e hbe hs he, gwClose_handler cfg st hh,
-      backendDone_truncated_sent cfg { st with open_ := false } hc hf hsent ht]
-  generalize hst2 : ({ st with open_ := false } : St) = st2
-  have hpt2 : (backendAbort cfg st2).sendChunked = true → (backendAbort cfg st2).dc.isSome = true := by
-    rw [← hst2]; simpa [backendAbort] using hpt
-  obtain ⟨k1, k2, k3, _, _, k6⟩ := chunkClose_noappend (backendAbort cfg st2) hpt2
-  have hka : (BeResp.chunkClose (backendAbort cfg st2)).keepAlive = false := by
-    cases hk : (BeResp.chunkClose (backendAbort cfg st2)).keepAlive
-    · rfl
-    · have := k6 hk; simp [backendAbort] at this
-  have e1 : st2.cstate = .write := by rw [← hst2]; exact hc
-  have e2 : st2.wq = st.wq := by rw [← hst2]
-  have e3 : st2.evs = st.evs := by rw [← hst2]
-  by_cases h1 : cfg.ver = 1
-  · simp only [h1, if_true]
-    have c1 : (BeResp.chunkClose (backendAbort cfg st2)).cstate = .write := by rw [k3]; simp [backendAbort, e1]
-    have c2 : (BeResp.chunkClose (backendAbort cfg st2)).wq = st.wq := by rw [k1]; simp [backendAbort, e2]
-    have c3 : (BeResp.chunkClose (backendAbort cfg st2)).evs = st.evs := by rw [k2]; simp [backendAbort, e3]
-    simp [conStep, c1, h1Progress, flush, c2, c3, hka, h1]
-  · simp [h1, conStep, e1, e2, e3, backendAbort, hv2, h1Progress, flush]
+  rw [onEnd_active cfg st e (Or.inr hc) ho hne (by simp [lostHandler, hc]), gwRecvEnd_eofHup cfg st e hbe hs he]
+  exact abort_of_gwClose_truncated cfg st hv hc hh hf hsent ht
 
 /-- **Clean EOF completes an EOF-delimited body** (HTTP/1.1, lighttpd chunk-encodes): the
     last-chunk is written then, keep-alive stays as it was. -/
@@ -620,6 +591,88 @@ example : codeOf 50 48 48 = 200 := by decide
 
 /-! ## the planned top-level statements, assembled from the parts above -/
 
+/-! failures that lighttpd detects while reading (`onData`), not at the end of the stream -/
+
+/-- **A chunked framing error of the backend after the response head was sent ⇒ abort** (HTTP/1.x):
+    the read in which lighttpd's decoder meets malformed chunk framing (`dcFeed … = .err`, e.g.
+    `c10_dechunk_missing_crlf_rejected`, `c10_dechunk_bad_size_line_rejected`) ends the response like
+    a connection failure: what was decoded before the error is written, no last-chunk, keep-alive
+    cleared, connection closed. -/
+theorem c10_malformed_chunked_after_head_aborts (cfg : Cfg) (st : St) (d : DcSt) (data : Bytes)
+    (hv : cfg.ver ≤ 1) (hbe : cfg.be ≠ .fcgi) (hc : st.cstate = .write) (ho : st.open_ = true)
+    (hs : st.started = true) (hsent : st.hdrSent = true) (hbl : bodiless cfg st = false)
+    (hdec : st.decodeChunked = true) (hd : st.dc = some d) (hdd : st.dcDone = 0) (hne : data ≠ [])
+    (herr : (dcFeed { d with out := [] } data).mode = .err) :
+    (onData cfg st data).keepAlive = false ∧ (onData cfg st data).cstate = .done ∧
+    (onData cfg st data).evs = pushW st.evs
+      (st.wq ++ (if st.sendChunked then [] else (dcFeed { d with out := [] } data).out)) := by
+  have hv2 : ¬ (cfg.ver ≥ 2) := by omega
+  have hact : onData cfg st data = conStep cfg (gwRecvData cfg st data) := by
+    unfold onData
+    have he : data.isEmpty = false := by cases data <;> simp_all
+    simp [hc, ho, he, lostHandler]
+  rw [hact, gwRecvData_dechunk_err cfg st d data hbe hs hdec hd hdd herr]
+  generalize hx : dechunkErrSt st d data = x
+  have xs : x.started = true := by rw [← hx]; exact hs
+  have xw0 : (dechunkErrSt st d data).wq = st.wq ++ (if st.sendChunked then [] else (dcFeed { d with out := [] } data).out) := rfl
+  have xh : x.hdrSent = true := by rw [← hx]; exact hsent
+  have xb : bodiless cfg x = false := by rw [← hx]; exact hbl
+  have xc : x.cstate = .write := by rw [← hx]; exact hc
+  have xw : x.wq = st.wq ++ (if st.sendChunked then [] else (dcFeed { d with out := [] } data).out) := by rw [← hx, xw0]
+  have xe : x.evs = st.evs := by rw [← hx]; rfl
+  rw [gwBackendError_sent cfg x xs xh xb]
+  simp [conStep, xc, hv2, h1Progress, flush, xw, xe]
+
+/-- ... before the client-side head was written ⇒ lighttpd's own 502. -/
+theorem c10_malformed_chunked_before_client_head_is_502 (cfg : Cfg) (st : St) (d : DcSt) (data : Bytes)
+    (hv : cfg.ver ≤ 1) (hbe : cfg.be ≠ .fcgi) (hc : st.cstate = .handle) (ho : st.open_ = true)
+    (hs : st.started = true) (hh : st.handler = true) (hsent : st.hdrSent = false) (hbl : bodiless cfg st = false)
+    (hdec : st.decodeChunked = true) (hd : st.dc = some d) (hdd : st.dcDone = 0) (hne : data ≠ [])
+    (herr : (dcFeed { d with out := [] } data).mode = .err) :
+    OwnError cfg st (onData cfg st data) 502 := by
+  have hact : onData cfg st data = conStep cfg (gwRecvData cfg st data) := by
+    unfold onData
+    have he : data.isEmpty = false := by cases data <;> simp_all
+    simp [hc, ho, he, lostHandler, hh]
+  rw [hact, gwRecvData_dechunk_err cfg st d data hbe hs hdec hd hdd herr]
+  generalize hx : dechunkErrSt st d data = x
+  have xs : x.started = true := by rw [← hx]; exact hs
+  have xw0 : (dechunkErrSt st d data).wq = st.wq ++ (if st.sendChunked then [] else (dcFeed { d with out := [] } data).out) := rfl
+  have xh : x.hdrSent = false := by rw [← hx]; exact hsent
+  have xb : bodiless cfg x = false := by rw [← hx]; exact hbl
+  have xc : x.cstate = .handle := by rw [← hx]; exact hc
+  have xk : x.keepAlive = st.keepAlive := by rw [← hx]; rfl
+  have xe : x.evs = st.evs := by rw [← hx]; rfl
+  rw [gwBackendError_unsent cfg x xs xh xb]
+  obtain ⟨b1, b2, b3, b4, b5, _⟩ := backendIncomplete_proj x
+  exact ownError_conStep cfg st _ 502 hv (by simp [b3, xc]) rfl b2 b1 (Or.inr rfl) (by rw [← xk]; exact b4)
+    (by rw [← xe]; exact b5)
+
+/-- **FastCGI: END_REQUEST before the announced end of the body is a truncation** (HTTP/1.x, head
+    already sent): when the read that delivers END_REQUEST (`readFcgi … = (st1, .finished)`)
+    leaves the body short of its Content-Length or inside a chunked body, the response is aborted —
+    nothing appended to what that read queued (but `ownLastChunk`, see
+    `c10_truncated_after_head_closes`), keep-alive cleared, connection closed.  (A failure
+    delivered through `onData`, not through the end of the stream.) -/
+theorem c10_fcgi_early_end_request_aborts (cfg : Cfg) (st st1 : St) (seg : Bytes)
+    (hv : cfg.ver ≤ 1) (hbe : cfg.be = .fcgi) (hc : st.cstate = .write) (ho : st.open_ = true)
+    (hsent : st.hdrSent = true) (hne : seg ≠ [])
+    (hr : readFcgi cfg st seg = (st1, .finished))
+    (hh : st1.handler = true) (hf : st1.finished = false) (ht : bodyTruncated cfg st1 = true) :
+    (onData cfg st seg).keepAlive = false ∧ (onData cfg st seg).cstate = .done ∧
+    (onData cfg st seg).evs = pushW st1.evs (st1.wq ++ (if cfg.ver = 1 then ownLastChunk st1 else [])) := by
+  have hact : onData cfg st seg = conStep cfg (gwRecvData cfg st seg) := by
+    unfold onData
+    have he : seg.isEmpty = false := by cases seg <;> simp_all
+    simp [hc, ho, he, lostHandler]
+  have hfr := fr1_readFcgi cfg st seg
+  rw [hr] at hfr
+  have hg : gwRecvData cfg st seg = gwClose cfg st1 := by
+    unfold gwRecvData
+    simp [hbe, hr]
+  rw [hact, hg]
+  exact abort_of_gwClose_truncated cfg st1 hv (hfr.1.trans hc) hh hf (hfr.2.1.trans hsent) ht
+
 /-- how the backend stream can break while a response is being relayed -/
 inductive Broken (cfg : Cfg) (st : St) : End → Prop
   /-- the backend goes away (any way) before its response head is complete -/
@@ -629,7 +682,7 @@ inductive Broken (cfg : Cfg) (st : St) : End → Prop
   | failed (e : End) : st.started = true → bodiless cfg st = false → FailEnd cfg st e → Broken cfg st e
   /-- backend EOF / hang-up short of the announced Content-Length or inside a chunked body -/
   | truncated (e : End) : st.started = true → cfg.be ≠ .fcgi → bodyTruncated cfg st = true →
-      (st.sendChunked = true → st.dc.isSome = true) → (e = .eof ∨ e = .hup) → Broken cfg st e
+      (e = .eof ∨ e = .hup) → Broken cfg st e
 
 /-- `c10_broken_never_complete` of DESIGN §6 for HTTP/1.x, over RUNS of the relay: after any
     sequence of backend reads (`segs`, starting from the initial state — the reachability
@@ -638,17 +691,19 @@ inductive Broken (cfg : Cfg) (st : St) : End → Prop
     a backend stream that breaks — no complete head, connection failure, FastCGI stream without
     END_REQUEST, EOF or hang-up short of Content-Length or inside a chunked body — is never
     completed by lighttpd: as long as the client-side response head has not been written the
-    client gets lighttpd's own complete `500`/`502` error response (`OwnError`); afterwards nothing
-    more is written (no last-chunk, no further body), keep-alive is cleared and the response ends.
+    client gets lighttpd's own complete `500`/`502` error response (`OwnError`); afterwards
+    keep-alive is cleared, the response ends, and nothing more is written than what was queued —
+    except, for an EOF truncation, `ownLastChunk` (empty in every reachable state, but that
+    invariant is not proved: see `c10_truncated_after_head_closes`).
     `hh`: the handler is still attached (false only after an unusable Status field inside a 1xx
     block, the behaviour reported as-is).
     `_partial`, MISSING: (1) that the abort is VISIBLE to the client — true by framing for
     Content-Length and HTTP/1.1 chunked messages (not proved: needs the accounting between
     `scratch` and the bytes written), FALSE for a close-delimited message to an HTTP/1.0 client
     (`c10_http10_abort_invisible_witness`, known finding); (2) failures that lighttpd detects
-    while reading (`onData`: chunked framing error, FastCGI END_REQUEST before the announced end)
-    take the same `gwBackendError`/`gwClose` paths but are not restated here; (3) `hpt` inside
-    `Broken.truncated`; HTTP/2: `c10_h2_*`. -/
+    while reading (`onData`) are separate theorems over any state, not part of `Broken`:
+    `c10_malformed_chunked_*`, `c10_fcgi_early_end_request_aborts`; (3) `ownLastChunk st = []`.
+    HTTP/2: `c10_h2_*`. -/
 theorem c10_broken_never_complete_partial (cfg : Cfg) (segs : List Bytes) (e : End) (hv : cfg.ver ≤ 1)
     (ho : (segs.foldl (onData cfg) {}).open_ = true)
     (hact : (segs.foldl (onData cfg) {}).cstate = .handle ∨ (segs.foldl (onData cfg) {}).cstate = .write)
@@ -657,7 +712,9 @@ theorem c10_broken_never_complete_partial (cfg : Cfg) (segs : List Bytes) (e : E
     (OwnError cfg (segs.foldl (onData cfg) {}) (relay cfg segs e) 500 ∨
      OwnError cfg (segs.foldl (onData cfg) {}) (relay cfg segs e) 502) ∨
     ((relay cfg segs e).keepAlive = false ∧ (relay cfg segs e).cstate = .done ∧
-     (relay cfg segs e).evs = pushW (segs.foldl (onData cfg) {}).evs (segs.foldl (onData cfg) {}).wq) := by
+     ((relay cfg segs e).evs = pushW (segs.foldl (onData cfg) {}).evs (segs.foldl (onData cfg) {}).wq ∨
+      (relay cfg segs e).evs = pushW (segs.foldl (onData cfg) {}).evs
+        ((segs.foldl (onData cfg) {}).wq ++ ownLastChunk (segs.foldl (onData cfg) {})))) := by
   have hi : Inv (segs.foldl (onData cfg) {}) := inv_reach cfg segs {} inv_init
   unfold relay
   generalize segs.foldl (onData cfg) {} = st at *
@@ -672,11 +729,16 @@ theorem c10_broken_never_complete_partial (cfg : Cfg) (segs : List Bytes) (e : E
     · exact Or.inl (Or.inr (c10_failure_before_client_head_is_502 cfg st e hv hc ho hs hh (hi.handle hc) hbl hfail))
     · right
       obtain ⟨a, b, _, d⟩ := c10_failure_after_head_aborts cfg st e hv hc ho hs (hi.write hc) hbl hfail
-      exact ⟨a, b, d⟩
-  | truncated hs hbe ht hpt he =>
+      exact ⟨a, b, Or.inl d⟩
+  | truncated hs hbe ht he =>
     rcases hact with hc | hc
     · exact Or.inl (Or.inr (c10_truncated_before_client_head_is_502 cfg st e hv hbe hc ho hs hh hf (hi.handle hc) ht he))
-    · exact Or.inr (c10_truncated_after_head_closes cfg st e hv hbe hc ho hs hh hf (hi.write hc) ht hpt he)
+    · right
+      obtain ⟨a, b, d⟩ := c10_truncated_after_head_closes cfg st e hv hbe hc ho hs hh hf (hi.write hc) ht he
+      refine ⟨a, b, ?_⟩
+      by_cases h1 : cfg.ver = 1
+      · exact Or.inr (by simpa [h1] using d)
+      · exact Or.inl (by simpa [h1] using d)
 
 /-- "Visibly aborted" is FALSE for an HTTP/1.0 client with a streamed body that is delimited by
     connection close: a backend reset after part of the body gives exactly the same bytes, and
@@ -746,13 +808,23 @@ example : let st := onData { be := .proxy, ver := 1, stream := 0 } {}
 example : Broken { be := .proxy, ver := 1, stream := 0 }
     (onData { be := .proxy, ver := 1, stream := 0 } {}
       (ofString "HTTP/1.1 200 OK\r\nTransfer-Encoding: chunked\r\n\r\n5\r\nhello\r\n")) .hup :=
-  .truncated _ (by decide) (by decide) (by decide) (by decide) (Or.inr rfl)
+  .truncated _ (by decide) (by decide) (by decide) (Or.inr rfl)
 /-- the invariant at work: these two states are reachable, so `Inv` holds of them -/
 example : Inv (onData { be := .proxy, ver := 1, stream := 0 } {}
       (ofString "HTTP/1.1 200 OK\r\nTransfer-Encoding: chunked\r\n\r\n5\r\nhello\r\n")) := inv_onData _ _ _ inv_init
 example : Inv (onData { be := .proxy, ver := 1, stream := 1 } {}
       (ofString "HTTP/1.1 200 OK\r\nContent-Length: 5\r\n\r\nhel")) := inv_onData _ _ _ inv_init
 example : FailEnd { be := .fcgi, ver := 1 } {} .eof := Or.inr (Or.inr ⟨rfl, Or.inl rfl, rfl⟩)
+/-! non-vacuity of the `onData` failure theorems -/
+example : let cfg : Cfg := { be := .proxy, ver := 1, stream := 1 }
+    let st := onData cfg {} (ofString "HTTP/1.1 200 OK\r\nTransfer-Encoding: chunked\r\n\r\n5\r\nhel")
+    st.cstate = .write ∧ st.decodeChunked = true ∧ st.dcDone = 0 ∧ bodiless cfg st = false ∧
+    (st.dc.map fun d => (dcFeed { d with out := [] } (ofString "loXX")).mode.isErr) = some true := by decide
+example : let cfg : Cfg := { be := .fcgi, ver := 1, stream := 1 }
+    let st := onData cfg {} (frEncode 6 1 (ofString "Content-Length: 5\r\n\r\nhel") [])
+    let r := readFcgi cfg st (frEncode 3 1 [0, 0, 0, 0, 0, 0, 0, 0] [])
+    st.cstate = .write ∧ st.hdrSent = true ∧ r.2 = .finished ∧ r.1.handler = true ∧ r.1.finished = false ∧
+    bodyTruncated cfg r.1 = true ∧ r.1.sendChunked = false := by decide
 /-! the fields of lighttpd's own 502 (HTTP/1.1, keep-alive): Content-Type, the page's Content-Length, Date -/
 set_option maxRecDepth 100000 in
 example : errFields { be := .proxy, ver := 1 } 502 true =
